@@ -51,6 +51,29 @@ NewBlock(sq, pos, kind) ==
   /\ attached' = attached \cup {new}
   /\ hist' = Append(hist, [op |-> kind, seq |-> sq, pos |-> pos, kind |-> kind, v |-> 0, d |-> -1])
 
+\* a block / loop with a signature made by InstrSeqType::new:
+\*   sig 1, (i32) -> (i32):  const 7 ; block { } ; drop        (the body passes its parameter on)
+\*   sig 2, ()    -> (i32):  block { const 7 } ; drop
+NewTypedBlock(sq, pos, kind, sig) ==
+  LET new == Len(seqs) IN
+  /\ seqs' = IF sig = 1
+             THEN Append(Ins(sq, pos, <<Node("const32", 7, -1), Node(kind, new, 1), Node("drop", -1, -1)>>), <<>>)
+             ELSE Append(Ins(sq, pos, <<Node(kind, new, 2), Node("drop", -1, -1)>>), <<Node("const32", 7, -1)>>)
+  /\ attached' = attached \cup {new}
+  /\ hist' = Append(hist, [op |-> "tblock", seq |-> sq, pos |-> pos, kind |-> kind, v |-> sig, d |-> -1])
+
+\* the node that holds sequence t, and how many values a branch to t carries
+HolderNodes(t) == {n \in UNION {{seqs[p][q] : q \in DOMAIN seqs[p]} : p \in DOMAIN seqs} :
+                     (n.t \in {"block", "loop"} /\ n.a = t) \/ (n.t = "ifelse" /\ (n.a = t \/ n.b = t))}
+\* (the function body and a sequence that is still dangling have no holder: a dangling sequence is attached as a void block / loop)
+SigOf(t) == IF HolderNodes(t) = {} THEN 0 ELSE LET n == CHOOSE x \in HolderNodes(t) : TRUE IN IF n.t = "ifelse" \/ n.b <= 0 THEN 0 ELSE n.b
+IsLoop(t) == HolderNodes(t) # {} /\ (CHOOSE x \in HolderNodes(t) : TRUE).t = "loop"
+LabelArity(t) == IF SigOf(t) = 0 THEN 0 ELSE IF SigOf(t) = 1 THEN 1 ELSE IF IsLoop(t) THEN 0 ELSE 1
+\* a branch is only placed where the operand stack certainly holds what the label wants: any label without operands, or
+\* the very start of the (i32) -> (i32) sequence the branch sits in (exactly its parameter is on the stack there; later
+\* insertions in front of it are stack-neutral, insertions elsewhere may leave an i64 on top)
+BranchFits(sq, pos, target) == LabelArity(target) = 0 \/ (sq = target /\ SigOf(target) = 1 /\ pos = 0)
+
 \* const 1 ; if_else_at: two new sequences
 NewIfElse(sq, pos) ==
   LET c == Len(seqs)  alt == Len(seqs) + 1 IN
@@ -79,26 +102,28 @@ AttachIf(sq, pos, d1, d2) ==
 
 \* const 0 ; br_table [t1] t2 : two enclosing sequences
 BrTable(sq, pos, t1, t2) ==
-  /\ t1 \in Ancestors(sq) /\ t2 \in Ancestors(sq)
+  /\ t1 \in Ancestors(sq) /\ t2 \in Ancestors(sq) /\ LabelArity(t1) = 0 /\ LabelArity(t2) = 0
   /\ seqs' = Ins(sq, pos, <<Node("const32", 0, -1), Node("brtable", t1, t2)>>)
   /\ UNCHANGED attached
   /\ hist' = Append(hist, [op |-> "brtable", seq |-> sq, pos |-> pos, kind |-> "", v |-> t2, d |-> t1])
 
 \* br / (const 0 ; br_if) to an enclosing sequence
 Branch(sq, pos, target, cond) ==
-  /\ target \in Ancestors(sq)
+  /\ target \in Ancestors(sq) /\ BranchFits(sq, pos, target)
   /\ seqs' = Ins(sq, pos, IF cond THEN <<Node("const32", 0, -1), Node("brif", target, -1)>> ELSE <<Node("br", target, -1)>>)
   /\ UNCHANGED attached
   /\ hist' = Append(hist, [op |-> (IF cond THEN "brif" ELSE "br"), seq |-> sq, pos |-> pos, kind |-> "", v |-> 0, d |-> target])
 
 CONSTANTS MaxOps,     \* bound on the history length
           UnitKinds,  \* which stack-neutral units may be inserted ({} = structure-only histories)
+          Sigs,       \* which signatures typed blocks may have (subset of {1, 2}; {} = none)
           MaxPos      \* insertion positions 0..MaxPos
 Init == seqs = << <<>> >> /\ attached = {0} /\ hist = <<>>
 Next ==
   /\ Len(hist) < MaxOps
   /\ \/ \E sq \in SeqIds, pos \in 0..MaxPos, kind \in UnitKinds : pos \in Positions(sq) /\ Unit(sq, pos, kind, Len(hist) + 1)
      \/ \E sq \in SeqIds, pos \in 0..MaxPos, kind \in {"block", "loop"} : pos \in Positions(sq) /\ NewBlock(sq, pos, kind)
+     \/ \E sq \in SeqIds, pos \in 0..MaxPos, kind \in {"block", "loop"}, sig \in Sigs : pos \in Positions(sq) /\ NewTypedBlock(sq, pos, kind, sig)
      \/ \E sq \in SeqIds, pos \in 0..MaxPos : pos \in Positions(sq) /\ NewIfElse(sq, pos)
      \/ NewDangling
      \/ \E sq \in SeqIds, pos \in 0..MaxPos, d \in SeqIds, kind \in {"block", "loop"} : pos \in Positions(sq) /\ Attach(sq, pos, d, kind)
@@ -112,6 +137,7 @@ Spec == Init /\ [][Next]_bvars
 
 Op(o, imm, local, labels, bt) == [o |-> o, imm |-> imm, refs |-> <<>>, local |-> local, labels |-> labels, bt |-> bt]
 
+SigText(b) == IF b = 1 THEN "(i32)->(i32)" ELSE IF b = 2 THEN "()->(i32)" ELSE "()->()"
 RECURSIVE FlatSeq(_, _, _), FlatFrom(_, _, _)
 \* stack: enclosing sequence ids, innermost last
 FlatNode(n, stack) ==
@@ -127,8 +153,8 @@ FlatNode(n, stack) ==
     [] n.t = "brtable" ->
          LET Depth(t) == Len(stack) - (CHOOSE x \in DOMAIN stack : stack[x] = t /\ \A y \in DOMAIN stack : stack[y] = t => y <= x) IN
          <<Op("BrTable", "", -1, <<Depth(n.a), Depth(n.b)>>, "")>>
-    [] n.t = "block"   -> <<Op("Block", "", -1, <<>>, "()->()")>> \o FlatSeq(n.a, Append(stack, n.a), "End")
-    [] n.t = "loop"    -> <<Op("Loop", "", -1, <<>>, "()->()")>> \o FlatSeq(n.a, Append(stack, n.a), "End")
+    [] n.t = "block"   -> <<Op("Block", "", -1, <<>>, SigText(n.b))>> \o FlatSeq(n.a, Append(stack, n.a), "End")
+    [] n.t = "loop"    -> <<Op("Loop", "", -1, <<>>, SigText(n.b))>> \o FlatSeq(n.a, Append(stack, n.a), "End")
     [] n.t = "ifelse"  -> <<Op("If", "", -1, <<>>, "()->()")>> \o FlatSeq(n.a, Append(stack, n.a), "Else") \o FlatSeq(n.b, Append(stack, n.b), "End")
 FlatFrom(sq, k, stack) == IF k > Len(seqs[sq + 1]) THEN <<>> ELSE FlatNode(seqs[sq + 1][k], stack) \o FlatFrom(sq, k + 1, stack)
 FlatSeq(sq, stack, closer) == FlatFrom(sq, 1, stack) \o <<Op(closer, "", -1, <<>>, "")>>
